@@ -175,7 +175,7 @@ FAMILIES["cluster"] = {
                    535: "C03: a pass over a stable member list did not probe every live peer exactly once",
                    540: "C04: a suspect/dead accusation was put on the wire in a healthy cluster",
                    541: "C04: a leave event fired for a member that had not left",
-                   542: "C04: a health score left zero", 543: "C04: a node held a responsive member Suspect/Dead (a leaver may only be held Left)"},
+                   542: "C04: a health score left zero", 545: "C04: a member that a node already held as departed re-entered its view", 543: "C04: a node held a responsive member Suspect/Dead (a leaver may only be held Left)"},
     "assumptions": ["goroutine scheduling inside a virtual instant, ticker behaviour and the Go timers are the runtime's: observed in virtual time, not proved",
                     "the simulated network (latency bound, loss, duplication, partitions, stream cuts) is the harness's; the real UDP/TCP transport is not exercised here",
                     "convergence for every schedule is not a theorem: peer selection is random in the code; the settling time is observed"],
